@@ -389,8 +389,8 @@ def run(tier, seed):
     rep = Report(PID, tier, seed, 'translation_validation')
     common.build_mmdump()
     mirs = [common.dump_mir('mimium_lang')[0], common.dump_mir('state_tree')[0]]
-    groups = ['op', 'st', 'ct', 'cl']
-    files = common.corpus_files(groups)
+    groups = ['op', 'st', 'ct', 'cl', 'gn'] + ([] if quick else ['fx'])
+    files = common.corpus_files(groups, tier, seed)
     steps = 3 if quick else 6
     budget = 90 if quick else 400
     jobs = [('analysis', dict(cls=('checks.c18', 'RustAnalysis'), path=f, mir_paths=mirs, steps=steps, mode='bmc',
